@@ -193,6 +193,10 @@ def run(tier, seed, report_as=None):
     nwf = check_fragment(chk, keep, "frag", "isolated", "wf_prog")
     nwf += check_fragment(chk, keep, "frdj", "django", "wf_prog_django", mode="django")
     nwf += check_fragment(chk, keepp, "frpr", "isolated+provide", "wf_prog_prov", keep=("provide",))
+    # pass-through slots: programs that really have a slot tag inside a component-tag body first
+    pt = sorted(keep, key=lambda p: "slot-in-fill" not in G.features(p))[: n // 2]
+    chk.dist["fragment/isolated+passthrough:with-slot-in-fill"] += sum(1 for p in pt if "slot-in-fill" in G.features(p))
+    nwf += check_fragment(chk, pt, "frpt", "isolated+passthrough", "wf_prog_pass", keep=("passthrough",))
     chk.assumptions = [
         "programs are drawn from the calculus of coq/Core/Syntax.v by harness/genprog.py (shared with C01/C03/C05); templates emit text "
         "without HTML elements; <!-- _RENDERED --> markers are stripped; expression evaluation of Django's engine (variables, dot lookup, "
@@ -207,11 +211,11 @@ def run(tier, seed, report_as=None):
     return chk.finish(
         rule="genprog programs, %d per batch, small ones first: distinct names isolated / django / django with `only`; colliding names "
              "(collide=0.35) isolated / django; provide/inject in every second program, plus two provide-heavy half batches; plus C01's corpus, C01M's witnesses, and %d programs "
-             "rewritten into the fragments of the refinement theorems (wf_prog / wf_prog_django / wf_prog_prov true). implementation-vs-M must agree in EVERY batch; M-vs-S must "
+             "rewritten into the fragments of the refinement theorems (wf_prog / wf_prog_django / wf_prog_prov / wf_prog_pass true). implementation-vs-M must agree in EVERY batch; M-vs-S must "
              "agree in the distinct-name isolated, django (no `only`) and fragment batches and is counted elsewhere. Non-trivial = has a fill, "
              "a slot and a nested component. Distinct = distinct program text." % (n, nwf),
         explanation="theorems of Props/C01M.v re-checked (ctx_restored for all programs and both modes; component_context_cache privacy; M = S "
-                    "for the isolated, django and isolated+provide fragments, no bounds); M evaluated by vm_compute inside Coq on every program and compared with the "
+                    "for the isolated, django, isolated+provide and isolated+pass-through fragments, no bounds); M evaluated by vm_compute inside Coq on every program and compared with the "
                     "implementation's output and with S; wf p -> M p = S p also evaluated as a test on the fragment batches.",
         extra_trusted=["modelled, not verified: Django's template engine for text/variables/if/for/with; Python list insert/pop semantics "
                        "(Core/CtxStack.v py_insertZ/py_popZ); deferred rendering abstracted to in-place rendering (C14 PostRender)",
